@@ -656,6 +656,14 @@ fn gen_loop(r: &mut Rng, i: usize) -> LoopCase {
     let stateless = r.chance(1, 2);
     let names: Vec<&str> = EXEC_NAMES.to_vec();
     let ch = match i % 5 {
+        // runs into the bound with every / most calls refused: the bound counts refused calls as well
+        _ if i % 17 == 5 && i % 2 == 1 => {
+            if r.chance(1, 2) {
+                ChoiceCase { value: json!("none"), spec: Some(Some(BTreeSet::new())) }
+            } else {
+                ChoiceCase { value: ToolChoiceParam::specific_function("ls".to_string()).into_value(), spec: Some(Some(["ls".to_string()].into_iter().collect())) }
+            }
+        }
         0 => ChoiceCase { value: json!("auto"), spec: Some(None) },
         _ => {
             // mostly well-formed shapes: a schema-invalid tool_choice ends the run before the first request
@@ -1386,6 +1394,16 @@ fn corpus_loops() -> Vec<LoopCase> {
     }
     let many: Vec<Value> = std::iter::once(json!({"type":"response.created","response":{"id":"resp_1"}})).chain((0..20).map(|j| call(j, &format!("fc_{j}"), &format!("call_{j}"), "write", &w(&format!("t{j}"))))).collect();
     let many2: Vec<Value> = std::iter::once(json!({"type":"response.created","response":{"id":"resp_2"}})).chain((20..40).map(|j| call(j, &format!("fc_{j}"), &format!("call_{j}"), "write", &w(&format!("t{j}"))))).collect();
+    // the bound counts refused calls too: 40 calls, every one barred by tool_choice "none" — 32 are processed
+    v.push(LoopCase {
+        stateless: false,
+        tool_choice: json!("none"),
+        choice_spec: Some(Some(BTreeSet::new())),
+        followup: None,
+        prompt: "bound_barred".into(),
+        thread: false,
+        rounds: vec![RoundSpec { mode: 0, events: many.clone(), done: true, expected: None, render: 5 }, RoundSpec { mode: 0, events: many2.clone(), done: true, expected: None, render: 6 }, end.clone()],
+    });
     v.push(LoopCase {
         stateless: true,
         tool_choice: json!("auto"),
